@@ -277,6 +277,7 @@ type Ctx struct {
 	initFinished map[*ssa.Package]bool
 	MaxPaths     int
 	MaxVisits    int
+	ElemsNonNil  bool // pointers read from slices of unknown content are assumed non-nil (well-formed lists)
 	UnwindDrop   bool // bounded harnesses: drop (instead of asserting infeasible) paths that exceed MaxVisits
 	NoMerge      bool
 	Notes        map[string]bool
@@ -393,24 +394,25 @@ func (fr *Frame) fork() *Frame {
 
 // FnExec is the verification run of one function under check.
 type FnExec struct {
-	Cx         *Ctx
-	Fn         *ssa.Function
-	Obls       []*Oblig
-	Paths      int
-	Merges     int
-	Returns    int
-	Aborted    string // non-empty: reason (path cap, out of subset)
-	ordinals   map[ssa.Instruction]map[string]int
-	Entry      *EntryInfo
-	RetFrame   *Frame
-	EntryArgs  []Value
-	EntryState *State
-	InitMode   bool
-	PinLen     map[string]uint64
-	Tag        string
-	Trusted    map[string]bool
-	Inlined    map[string]bool
-	Applied    map[string]bool
+	Cx           *Ctx
+	Fn           *ssa.Function
+	Obls         []*Oblig
+	Paths        int
+	Merges       int
+	Returns      int
+	Aborted      string // non-empty: reason (path cap, out of subset)
+	ordinals     map[ssa.Instruction]map[string]int
+	Entry        *EntryInfo
+	RetFrame     *Frame
+	EntryArgs    []Value
+	EntryState   *State
+	InitMode     bool
+	littleEndian bool // byte order of the binary.Read/Write in progress
+	PinLen       map[string]uint64
+	Tag          string
+	Trusted      map[string]bool
+	Inlined      map[string]bool
+	Applied      map[string]bool
 	// optional hooks
 	// OnJoin is called when the branches of a top-level If of the function under check have been joined
 	// (ifBlock is the block ending in the If); it may emit obligations and canonicalise the state.
@@ -596,6 +598,10 @@ func (fx *FnExec) readPath(st *State, v Value, p Path, t types.Type) Value {
 				panic(Unsupported{"read of unknown-content array without state"})
 			}
 			v = fx.SymValue(st, a.ET, "elem", 1)
+			if pv, ok := v.(PtrV); ok && fx.Cx.ElemsNonNil {
+				// job-level assumption: the (unknown) elements of pointer lists are non-nil
+				st.Assume(Not(pv.Nil))
+			}
 		default:
 			panic(Unsupported{fmt.Sprintf("index read on %T", v)})
 		}
